@@ -26,6 +26,9 @@ def generate(rng, cfg: Dict) -> Dict:
         population.append(["Boss", serial, c.pick(humans)] if cls == "Boss" else [cls, serial])
         classes[serial] = cls
     cands = [(s, f, t) for s, cs in classes.items() for (dc, f, rc) in RELATABLE if dc == cs for t, ct in classes.items() if ct == rc]
+    # krrood itself puts role objects into Org.members (the inverse of HeadOf); asserting such a fact directly is
+    # therefore part of the fact space: Member(org, boss) - its inverse lives on the boss's role taker
+    cands += [(s, "members", t) for s, cs in classes.items() if cs == "Org" for t, ct in classes.items() if ct == "Boss"]
     facts: List[list] = []
     focus = c.weighted([("any", 3), ("transitive", 3), ("roles", 2)])
     for _ in range(c.int(1, 9)):
